@@ -5,19 +5,22 @@ from . import c02_c19_flow as flow
 
 MODULE = "StorageModel.Properties.C19"
 THEOREMS = ["objectz_paging_facts_expected", "boltz_paging_facts_expected", "objectz_filter_exact", "objectz_exact",
-            "objectz_eq_bolt", "objectz_order_independent", "pinned_isnil_violates"]
-TABLE = ["objectz_paging_facts_expected / boltz_paging_facts_expected (Generated/PagingFacts.lean: shape of setPaging, maxResults and the eviction test, regenerated from objectz/object_store.go and boltz/query_scanners.go)"]
+            "objectz_eq_bolt", "objectz_order_independent", "pinned_isnil_violates",
+            "objectz_eq_bolt_any_filter", "objectz_needs_id", "objectz_nil_iterator_empty", "set_function_on_non_set_rejected",
+            "objectz_float_comparator_facts_expected", "boltz_float_comparator_facts_expected"]
+TABLE = ["objectz_paging_facts_expected / boltz_paging_facts_expected (Generated/PagingFacts.lean: shape of setPaging, maxResults and the eviction test, regenerated from objectz/object_store.go and boltz/query_scanners.go)",
+         "objectz_float_comparator_facts_expected / boltz_float_comparator_facts_expected (Generated/PagingFacts.lean: branch chain of the float64 sort comparators incl. the NaN branch, regenerated from objectz/object_store_sort.go and boltz/query_sort.go)"]
 
 
 def _f(case):
     f = case.split(" ")
-    return dict(rows=f[1], filter=f[2], sort=f[3], skip=f[4], limit=f[5], order=f[6])
+    return dict(rows=f[1], filter=f[2], sort=f[3], skip=f[4], limit=f[5], order=f[6], variant=f[7] if len(f) > 7 else "full")
 
 
 def nontrivial(case, impl):
     """non-trivial: at least 2 objects match and a null test, a sort field, skip or limit is present"""
     c = _f(case)
-    if "err" in impl.split("|")[1] or impl.startswith("panic"):
+    if impl.startswith("panic") or "|" not in impl or "err" in impl.split("|")[1]:
         return None
     try:
         count = int(impl.split("|")[1].split("#")[1])
@@ -25,9 +28,9 @@ def nontrivial(case, impl):
         return None
     if count < 2:
         return None
-    if c["sort"] == "-" and c["skip"] == "-" and c["limit"] == "-" and not c["filter"].startswith(("null", "notnull")):
+    if c["sort"] == "-" and c["skip"] == "-" and c["limit"] == "-" and "null" not in c["filter"]:
         return None
-    return (c["rows"], c["filter"], c["sort"], c["skip"], c["limit"])
+    return (c["rows"], c["filter"], c["sort"], c["skip"], c["limit"], c["variant"])
 
 
 def describe(case, impl, model, spec):
@@ -36,12 +39,13 @@ def describe(case, impl, model, spec):
     def sec(line):
         return dict(p.split("=", 1) for p in (line or "").split("|") if "=" in p) or line
     return {"case": case, "rows": flow.split_rows(c["rows"]) or c["rows"], "filter": c["filter"], "sort": c["sort"],
-            "skip": c["skip"], "limit": c["limit"], "object_iteration_order": c["order"],
+            "skip": c["skip"], "limit": c["limit"], "object_iteration_order": c["order"], "object_store": c["variant"],
             "impl": sec(impl), "model": sec(model), "spec": sec(spec)}
 
 
 def histogram(lines):
-    h = {"rows": Counter(), "sort": Counter(), "skip": Counter(), "limit": Counter(), "filter": Counter(), "order": Counter()}
+    h = {"rows": Counter(), "sort": Counter(), "skip": Counter(), "limit": Counter(), "filter": Counter(), "order": Counter(),
+         "object_store": Counter(), "nan_data": Counter()}
     for l in lines:
         c = _f(l)
         n = len(flow.split_rows(c["rows"]))
@@ -49,8 +53,10 @@ def histogram(lines):
         h["sort"][flow.sort_histogram(c["sort"])] += 1
         h["skip"][flow.paging_class(c["skip"], n)] += 1
         h["limit"][flow.paging_class(c["limit"], n)] += 1
-        h["filter"][c["filter"].split(".")[0]] += 1
+        h["filter"][c["filter"].split("~")[0].split(".")[0]] += 1
         h["order"][c["order"][:3]] += 1
+        h["object_store"][c["variant"]] += 1
+        h["nan_data"]["NaN float present" if "7ff8000000000001" in c["rows"] or "fff8000000000000" in c["rows"] else "no NaN"] += 1
     return {k: dict(sorted(v.items())) for k, v in h.items()}
 
 
@@ -64,6 +70,10 @@ def candidates(case):
         out.append(" ".join(g))
     if f[6] != "fwd":
         put(6, "fwd")
+    if len(f) > 7 and f[7] != "full":
+        put(7, "full")
+    for v in flow.filter_variants(f[2]):
+        put(2, v)
     for v in flow.sort_variants(f[3]):
         put(3, v)
     for v in flow.row_variants(f[1]):
@@ -72,7 +82,7 @@ def candidates(case):
         put(4, v)
     for v in flow.num_variants(f[5]):
         put(5, v)
-    if not f[2].startswith(("true", "null", "notnull")):
+    if not f[2].startswith(("true", "null", "notnull")) and "~" not in f[2]:
         put(2, "true")
     return out
 
@@ -80,22 +90,26 @@ def candidates(case):
 MATCHERS = {}
 
 RULE = ("200 (quick) / 4000 (thorough) random collections of 0-7 objects over tiny value pools (null pointers, ties, "
-        "empty string, -0.0/+0.0, +-Inf, min/max int64, equal instants), each loaded into a bolt store and into an "
-        "objectz.ObjectStore whose iterator yields them forward, reversed, rotated or in Go map order (IterateMap), x "
+        "empty string, -0.0/+0.0, +-Inf, NaN, min/max int64, equal instants, the zero time), each loaded into a bolt store and into "
+        "objectz.ObjectStores whose iterator yields them forward, reversed, rotated or in Go map order (IterateMap), x "
         "75/100 queries: filter in {= null, != null (50%), true, one typed comparison}, 0-6 sort fields either "
         "direction, skip and limit from {absent, none, min64, -5, -1, 0, 1, 2, n-1, n, n+1, 2n, max64-1, max64} plus "
-        "non-integer numbers. Each case runs boltz QueryIds, objectz QueryEntities, and QueryEntitiesC twice on one "
-        "query object. non-trivial = at least two objects match and a null test, sort field, skip or limit is present; "
-        "distinct = (collection, filter, sort, skip, limit)")
+        "non-integer numbers; + 150/2500 collections (a third with NaN floats) x 40/60 queries against one of three "
+        "object stores (all symbols / only id,s,i / no id symbol): filters nested with and/or/not to depth 3, filters on unknown symbols, set "
+        "functions on non-set symbols, 0-9 sort fields with duplicates, id anywhere, unknown / set / AnyType / dotted sort fields; + 40/600 "
+        "collections x 25/30 queries with NaN / +-Inf / -0 under the float64 sort key (all iteration orders). Each case runs boltz QueryIds, "
+        "objectz QueryEntities, and QueryEntitiesC twice on one query object. non-trivial = at least two objects match and a null test, sort field, "
+        "skip or limit is present; distinct = (collection, filter, sort, skip, limit, object store)")
 
 
 def run(ctx, replay_cases=None):
     ctx.assumptions += [
         "object symbols return the typed pointer of the object's field (objects 'hold the same field values' as the bolt rows: the harness builds both from one dataset)",
         "the biogo llrb tree behaves as a strictly sorted list with replace-on-equal Insert and DeleteMax = drop the last element",
-        "object ids are distinct (hypothesis DistinctIds) and no float64 sort key is NaN (hypothesis NoNaNKeys)",
+        "object ids are distinct (hypothesis DistinctIds)",
+        "filters outside the modelled fragment are covered by objectz_eq_bolt_any_filter under the hypothesis TypedLocal (the node reads every symbol through the accessor of its declared type and IsNil), which is proved for the fragment only",
         "fewer than 2^63 objects",
-        "filters are those of the fragment in Query/Filter.lean over non-set symbols; set symbols are not implemented by objectz (OpenSetCursor panics by design) and are outside the property",
+        "the executable filter fragment is that of Query/Filter.lean (typed comparisons, = null, != null, and/or/not) over non-set symbols; set symbols are not implemented by objectz (OpenSetCursor panics by design) and are outside the property; set functions on non-set symbols are rejected by both parsers",
         "bolt side: the assumptions of C02 (bbolt key order)",
     ]
     return flow.flow(ctx, "c19", MODULE, THEOREMS, MATCHERS, nontrivial, describe, RULE, histogram, candidates,
